@@ -226,11 +226,72 @@ def iterators(ctx, facts, cfg):
             ctx.violation('C12.b-iterators', 'iterator-state', '%s holds %s; expected exactly an ended flag, a next index and the borrowed work' % (adt_p, fl), site=adt['span'], fn=adt_p, cfg=cfg)
             continue
         problems = iterator_protocol(facts, fn, F, accessor, kind, RL)
+        problems += other_iterator_methods(facts, adt_p, F)
         if problems:
             for pr in sorted(set(problems)):
                 ctx.violation('C12.b-iterators', re.sub(r'[^A-Za-z]+', '-', pr)[:60], '%s: %s' % (p, pr), site=fn.span, fn=p, cfg=cfg)
         else:
             ctx.ok('C12.b-iterators', '%s@%s' % (p, cfg), {'protocol': 'ended only set true; ended => None without effects; index only grows; items = %s(index); None only after ended := true' % core.short(accessor)})
+
+
+def other_iterator_methods(facts, adt_p, F):
+    """Overrides of Iterator methods other than next() (nth, fold, last, ...) and further ways to draw items (DoubleEndedIterator)
+    must keep the iterator fused: every path on which such a method reports None has either seen the ended flag set or sets it,
+    and the borrowed work is never replaced.  Methods taking &self (size_hint) cannot change what is yielded."""
+    problems = []
+    for p, g in sorted(facts.fns.items()):
+        if g.impl_self_adt != adt_p or not g.impl_trait or g.name == 'next':
+            continue
+        if g.impl_trait not in ('std::iter::Iterator', 'std::iter::DoubleEndedIterator', 'std::iter::ExactSizeIterator', 'std::iter::FusedIterator'):
+            continue
+        if g.inputs and g.inputs[0].startswith('&') and not g.inputs[0].startswith('&mut'):
+            continue
+        body = g.body
+        if not (body.local_ty(0).startswith('std::option::Option<')):
+            if g.impl_trait == 'std::iter::Iterator' and g.name in ('count', 'last', 'fold', 'for_each', 'collect', 'sum', 'product', 'max', 'min'):
+                # consuming methods: the iterator is gone afterwards
+                continue
+        W, T = set(), set()
+        for b in range(body.n):
+            blk = body.blocks[b]
+            if blk['cleanup']:
+                continue
+            for st in blk['stmts']:
+                l = st.get('lhs')
+                if st['k'] == 'assign' and l['l'] == 1 and len(l['p']) >= 2 and l['p'][0] == '*' and isinstance(l['p'][1], dict):
+                    if l['p'][1].get('f') == F['ended'] and body.canon_rv(st['rv']) == ('const', 1):
+                        W.add(b)
+                    if l['p'][1].get('f') == F['work']:
+                        problems.append('%s reassigns the borrowed work' % g.name)
+            t = blk['term']
+            if t['k'] == 'switch':
+                c = body.canon_op(t['discr'])
+                neg = False
+                while c[0] == 'un' and c[1] == 'Not':
+                    neg, c = (not neg), c[2]
+                if core.strip_var_ids(c) == ('field', ('deref', ('param', body.local_name(1) or 'self')), F['ended']):
+                    zero = [tgt for v, tgt in t['targets'] if v == 0]
+                    te = t['otherwise'] if not neg else (zero[0] if zero else None)
+                    if te is not None:
+                        T.add(te)
+        nones = []
+        for b in range(body.n):
+            blk = body.blocks[b]
+            if blk['cleanup']:
+                continue
+            for st in blk['stmts']:
+                if st['k'] == 'assign' and st['lhs']['l'] == 0 and not st['lhs']['p'] and st['rv']['k'] == 'agg' and st['rv'].get('variant') == 'None':
+                    nones.append(b)
+            t = blk['term']
+            if t['k'] == 'call' and t['dest']['l'] == 0 and not t['dest']['p'] and t['callee'].get('decl') == 'std::ops::FromResidual::from_residual':
+                nones.append(b)
+        reach = body.reachable_from(0, stop=frozenset(W | T))
+        for b in nones:
+            if b in reach and b not in W:
+                problems.append('%s::%s can report None on a path that neither found the ended flag set nor sets it: the iterator may yield again after None (the items of the round are exactly those of next())'
+                                % (g.impl_trait.split('::')[-1], g.name))
+                break
+    return problems
 
 
 def iterator_protocol(facts, fn, F, accessor, kind, RL):
